@@ -27,16 +27,17 @@ let model_keeper (s : ik_st) =
 let model_store (s : ik_st) =
   List.sort compare (List.map (fun it -> ((i it.it_src, dec_of_n it.it_time, i it.it_seq), i it.it_tid, (i it.it_src, dec_of_n it.it_time, i it.it_fseq))) s.ik_store)
 
-type sub = { tid : int; path : string; src : int; t : string; gen : int; stale : bool; opno : int }
+type sub = { tid : int; path : string; src : int; t : string; gen : int; stale : bool; opno : int; vr : int; ahead : bool }
 
 let window = 86400
 
 let scen fields =
   match fields with
   | [] -> raise (Bad "scen")
-  | _name :: ops ->
+  | name :: ops ->
     let res = ref [] and tags = ref [] in
     let tag t = if not (List.mem t !tags) then tags := t :: !tags in
+    (match name with Atom n when String.length n >= 3 && String.sub n 0 3 = "bnd" -> tag n | _ -> ());
     let fail v = if not (List.mem v !res) then res := v :: !res in
     let st = ref (Some ik_init) in
     let subs : sub list ref = ref [] in
@@ -77,15 +78,17 @@ let scen fields =
         (match kind with
          | "sub" | "grp" ->
            let ms = List.map (fun m -> match lst m with
-               | [p; tid; src; t] ->
+               | [p; tid; src; t; vr] ->
                  let t = atom t in
                  let nowi = int_of_string (Option.get now) in
                  let stale = t <> "0" && int_of_string t < nowi - window in
-                 { tid = s_int tid; path = atom p; src = s_int src; t; gen = !gen; stale; opno = !opno }
+                 let ahead = t <> "0" && int_of_string t > nowi in
+                 { tid = s_int tid; path = atom p; src = s_int src; t; gen = !gen; stale; opno = !opno; vr = s_int vr; ahead }
                | _ -> raise (Bad "member")) members in
            subs := !subs @ ms;
            tag kind;
-           List.iter (fun m -> tag ("path-" ^ m.path); if m.t = "0" then tag "epoch" ; if m.stale then tag "stale-time") ms;
+           List.iter (fun m -> tag ("path-" ^ m.path); if m.t = "0" then tag "epoch" ; if m.stale then tag "stale-time";
+                       if m.ahead then tag "time-ahead-of-clock"; if m.vr <> 0 then tag "variant") ms;
            (* the order of the counter steps inside a concurrent group is the scheduler's choice:
               take it from the observation (sorted by the number each bundle shows) and let the
               model validate it *)
@@ -204,6 +207,11 @@ let scen fields =
       List.iter (fun b -> if a.src = b.src && a.t = b.t then begin
                     tag (if a.t = "0" then "pair-epoch" else "pair-same-ms");
                     if a.opno = b.opno then tag "pair-concurrent";
+                    if a.ahead && b.ahead then tag "pair-ahead-of-clock";
+                    if a.path <> "rp" && b.path <> "rp" then begin
+                      if a.vr mod 5 <> b.vr mod 5 then tag "pair-differ-report-to";
+                      if a.vr / 5 <> b.vr / 5 then tag "pair-differ-other-fields"
+                    end;
                     if a.path = "rp" && b.path = "rp" then tag "pair-reports-same-ms";
                     if a.path <> b.path then tag "pair-mixed-paths" end) r; pairs r in
     pairs !subs;
